@@ -142,7 +142,13 @@ C03_only_own_missing(h) ==
   (h.facts.crashes > 0 /\ h.facts.readable_after_crash /\ Cardinality(Idx(h)) = 1) =>
      LET p == h.procs[1]
          full == {r.log : r \in Ideal!Outcomes(h.logpre, MaxTs(h.logpre) + 5, p.cmd)}
-     IN \E f \in full : \E l \in Between(h.logpre, f) \cup {f} :
+         \* the tombstones of one prune are written in an order the specification does not fix
+         \* (ids are opaque): a write cut short may have got out ANY of them
+         Some(f) == IF p.cmd.name # "prune" \/ ~IsPrefix(h.logpre, f) THEN {}
+                    ELSE LET n0 == Len(h.logpre) n1 == Len(f) IN
+                         {h.logpre \o SelectSeq(SubSeq(f, n0 + 1, n1), LAMBDA e : e.id \in S) :
+                            S \in SUBSET {f[k].id : k \in (n0 + 1)..n1}}
+     IN \E f \in full : \E l \in Between(h.logpre, f) \cup {f} \cup Some(f) :
            NoTime(View(Replay(l))) = NoTime(h.post)
 C03_continues(h) ==
   h.facts.crashes > 0 =>
